@@ -496,10 +496,14 @@ def _endpoint_from_socksport_line(reactor, socks_config):
     the same format expected by the SOCKSPort option in Tor.
     """
     if socks_config.startswith('unix:'):
-        # XXX wait, can SOCKSPort lines with "unix:/path" still
-        # include options afterwards? What about if the path has a
-        # space in it?
-        return UNIXClientEndpoint(reactor, socks_config[5:])
+        # flags (e.g. WorldWritable) can follow the path like on any
+        # other SOCKSPort line; a path containing spaces is quoted
+        path = socks_config[5:]
+        if path.startswith('"'):
+            path = path[1:].split('"', 1)[0]
+        else:
+            path = path.split(' ', 1)[0]
+        return UNIXClientEndpoint(reactor, path)
 
     # options like KeepAliveIsolateSOCKSAuth can be appended
     # to a SocksPort line...
